@@ -1215,7 +1215,7 @@ func c11SeqRand(stream string, seq int) *rand.Rand {
 }
 
 func TestVerifC11Sequential(t *testing.T) {
-	r := vrep.New("C11", "c11-seq", "generated raw KV operation sequences (get/put/putTTL/delete/batch get,put,putTTL,delete/delete-range/scan/reverse scan/checksum/CAS, 3 column families, 2 clients with separate region caches, atomic and non-atomic mode) on mocktikv with 1-7 regions over 2-3 stores; every result compared with a sorted-map model (not-found = nil) and the store content (read directly) compared with the model after every call; the RPC hook splits/merges/moves leaders right before the n-th request of a call (after the region lookup / between partial requests); distinct = distinct (op kind, cf, #regions, regions spanned, topology changes fired with their request index, region-error kinds, boundary classes) among calls that span >=2 regions or met a topology change or a region error")
+	r := vrep.New("C11", "c11-seq", "generated raw KV operation sequences (get/put/putTTL/delete/batch get,put,putTTL,delete/delete-range/scan/reverse scan/checksum/CAS, 3 column families, 2 clients with separate region caches, atomic and non-atomic mode) on mocktikv with 1-7 regions over 2-3 stores; every result compared with a sorted-map model (not-found = nil) and the store content (read directly) compared with the model after every call; the RPC hook splits/merges/moves leaders right before the n-th request of a call (after the region lookup / between partial requests); every call runs under one of four context disciplines (live; cancelled right after the return; cancelled or deadline-expired at the n-th RPC of the call, that RPC either not delivered or executed and answered) — a call that fails under an ended context leaves each affected key old-or-new (checked in the store, read back with a live context, model pinned, no late write), a call that returns nil error must be complete; distinct = distinct (op kind, cf, #regions, regions spanned, topology changes fired with their request index, region-error kinds, boundary classes) among calls that span >=2 regions or met a topology change or a region error")
 	defer r.Finish(t)
 	c11Probe()
 	nOps := vrep.Pick(70, 120)
@@ -1246,4 +1246,12 @@ func TestVerifC11Sequential(t *testing.T) {
 	r.Floor("class_prev-not-exist-on-absent", 30)
 	r.Floor("class_prev-not-exist-on-present", 30)
 	r.Floor("class_prev-matches", 30)
+	r.Floor("ctx_bg_calls", 2000)
+	r.Floor("ctx_cancel-after_calls", 300)
+	r.Floor("ctx_cancel-at_ended_rpc_not_delivered", 150)
+	r.Floor("ctx_cancel-at_ended_after_rpc_executed", 150)
+	r.Floor("ctx_deadline-at_ended_rpc_not_delivered", 150)
+	r.Floor("ctx_deadline-at_ended_after_rpc_executed", 150)
+	r.Floor("ctx_readbacks", 200)
+	r.Floor("ctx_failed_mutation_left_a_mix", 30)
 }
